@@ -289,7 +289,7 @@ impl Runner {
                 }
                 if let Some(f) = &mut self.record_to {
                     use std::io::Write;
-                    let _ = writeln!(f, "{}", serde_json::json!({"replace_last": expl}));
+                    let _ = writeln!(f, "{{\"replace_last\":{}}}", serde_json::to_string(&expl).unwrap());
                     let _ = f.flush();
                 }
             }
@@ -400,7 +400,9 @@ pub fn run_seed(prop: &str, seed: u64, thorough: bool, record: Option<&str>) -> 
         runner.record_to = std::fs::File::create(path).ok();
         if let Some(f) = &mut runner.record_to {
             use std::io::Write;
-            let _ = writeln!(f, "{}", serde_json::json!({"header": {"property": prop, "features": wire::FEATURES, "seed": seed, "n_users": n_users, "n_encryptors": n_enc}}));
+            // built by hand: a serde_json map would draw hash keys in this thread and so perturb
+            // the hash-map iteration orders of the code under test relative to a plain worker run
+            let _ = writeln!(f, "{{\"header\":{{\"property\":\"{prop}\",\"features\":\"{}\",\"seed\":{seed},\"n_users\":{n_users},\"n_encryptors\":{n_enc}}}}}", wire::FEATURES);
         }
     }
     if big_ids {
